@@ -20,13 +20,17 @@ COMPLETE = {refemu.UNKNOWN: "", refemu.RUNNING: "e", refemu.COOLING: "e",
 
 
 def make_desc(shape):
-    """shape: list of looms, each (ncpus, [threads per proc...]).  TIDs are
-    unique across the trace; phyids are scrambled w.r.t. indices so that row
+    """shape: list of looms, each (ncpus, [threads per proc...]) or (ncpus,
+    [...], "same-tids"): thread ids count on from the previous loom, or start
+    again at 100 (thread ids are only unique inside a node); phyids are scrambled w.r.t. indices so that row
     order (by phyid) differs from index order."""
     looms = []
     tid = 100
     pid = 10
-    for li, (ncpus, procs) in enumerate(shape):
+    for li, sh in enumerate(shape):
+        ncpus, procs = sh[0], sh[1]
+        if len(sh) > 2:
+            tid = 100
         ps = []
         for nt in procs:
             ps.append({"pid": pid, "appid": pid - 9, "threads": list(range(tid, tid + nt))})
@@ -228,7 +232,8 @@ def run_closure_case(case):
 def gen_random(chk, i):
     rng = chk.rng(i, "rand")
     shape = rng.choice([[(2, [2])], [(3, [2, 1])], [(2, [3])], [(2, [1, 1]), (2, [2])], [(3, [2]), (2, [1, 2])],
-                        [(1, [3])]])
+                        [(1, [3])], [(2, [2]), (2, [1, 1], "same-tids")], [(3, [1, 2]), (3, [1, 1, 1], "same-tids")],
+                        [(2, [1, 1]), (2, [2], "same-tids")]])
     desc = make_desc(shape)
     keys = keys_of(desc)
     ncpu = {l["name"]: len(l["cpus"]) for l in desc["looms"]}
@@ -300,6 +305,8 @@ def main(argv):
     # two threads in two processes sharing one physical CPU + virtual
     # depth 4 is needed for "A executes, pauses; B executes on the same CPU; A resumes"
     closure += enumerate_closure([(1, [1, 1])], [0, -1], 4 if quick else 5, maxcases=None if quick else 600, rng=rng)
+    # two nodes using the same thread ids; the second one has its threads in two processes
+    closure += enumerate_closure([(1, [1]), (2, [1, 1], "same-tids")], [0, 1], 3, maxcases=400 if quick else 3000, rng=rng)
     nrandom = 200 if quick else 6000
     runs = acc = rej = lines = vover = 0
     words = set()
@@ -334,7 +341,7 @@ def main(argv):
     cov = {"evaluations": runs, "distinct_nontrivial": len(words),
            "rule": "legal-prefix closure over {OHx(cpu),OHp,OHr,OHc,OHw,OHe,OAs(cpu),OAr(cpu,tid)} x threads on small "
                    "systems (every legal prefix extended by every next event; illegal ones followed by every candidate "
-                   "completion) plus random histories up to length 60 on 1-2 looms, 2-5 threads, 1-3 CPUs + virtual CPU; "
+                   "completion) plus random histories up to length 60 on 1-2 looms (thread ids unique or repeated across looms), 2-5 threads, 1-3 CPUs + virtual CPU; "
                    "distinct_nontrivial = distinct (system shape, history) executed",
            "samples": samples, "closure_pairs": len(closure), "closure_legal_next": legal_next,
            "random_histories": nrandom, "emulator_accepted": acc, "emulator_rejected": rej,
